@@ -39,6 +39,11 @@ RDiag(v) == [i \in 1..Len(v) |-> [j \in 1..Len(v) |-> IF i = j THEN v[i] ELSE R0
 RVAdd(u, v) == [i \in 1..Len(u) |-> RAdd(u[i], v[i])]
 RInv(r) == RDiv(R1, r)
 
+(* crossed bounds (a lower bound above its upper bound): a transient state that a sequence of partial       *)
+(* register_bounds calls may pass through; the system has no gamut then and nothing is asked of it            *)
+Crossed(e) == e.reg /\ \E j \in 1..Len(e.lb) : ~RIsInf(e.ub[j]) /\ RLt(e.ub[j], e.lb[j])
+
+
 (* capture of a spectrum by the registered filters (unit step): integers       *)
 SpecCapture(sig) == [i \in 1..D0 |-> TrapzUnit2(Prod(Filters[i], sig)) \div 2]
 CaptureMatrix(src) == [i \in 1..D0 |-> [k \in 1..Len(src) |-> TrapzUnit2(Prod(Filters[i], src[k])) \div 2]]
@@ -165,7 +170,7 @@ Representable(s, b) == \A i \in 1..Len(b) : (b[i][1] * s.D * s.DK) % b[i][2] = 0
 (* reproduced (a constraint): it is only explored when every registered target is strictly inside the gamut.          *)
 FitKinds == 0..3
 FitInternal(kind) ==
-  /\ est.reg /\ est.treg
+  /\ est.reg /\ est.treg /\ ~Crossed(est)
   /\ (kind = 1 => /\ D0 < Len(est.A[1])
                   /\ est.nfit = 0          \* the registered (lattice) targets themselves, not an earlier prediction
                   /\ LET s == AsSystem(est)
@@ -224,7 +229,8 @@ Answers(e) ==
    uncertainty_capture |-> IF e.fu = <<>> THEN <<>> ELSE [k \in 1..Len(BgPool) |-> VarCapture(e.fu, BgPool[k])],
    Epsilon |-> e.Eps,
    errors |-> ErrorsOf(e),
-   sys |-> IF e.reg THEN SysAnswers(e) ELSE [none |-> TRUE]]
+   crossed |-> Crossed(e),
+   sys |-> IF e.reg /\ ~Crossed(e) THEN SysAnswers(e) ELSE [none |-> TRUE]]
 
 (* a read-only query: stutters on the registered state                            *)
 Query == UNCHANGED est /\ Log(Act("query", 0, FALSE, FALSE))
